@@ -521,6 +521,23 @@ def split_laziness(rep, L):
                 self.samples += len(b) // 2
             return b
 
+    # large windows: the source must be asked for end of stream exactly once whatever the length of the tail
+    for W_, rate_ in ((8000, 16000), (4410, 44100), (16384, 16384)):
+        for tail in (0, 1, 1000, 4095, 4096, 4097, 8192, W_ - 1):
+            if tail >= W_:
+                continue
+            for flags in ([True], [True, False, True], [False, True, True]):
+                rep.add("evaluations")
+                rep.add("large_rows_not_exhaustive")
+                data = coded(flags, W_, 2, 1, tail, True)
+                src = Counting(data, rate_, 2, 1)
+                regs = list(lib_["core"].split(src, min_dur=W_ / rate_, max_dur=2 * W_ / rate_, max_silence=0, analysis_window=W_ / rate_,
+                                               energy_threshold=50))
+                if src.nones != 1 or src.samples != len(data) // 2:
+                    rep.violation("split-lazy-large W=%d rate=%d tail=%d pattern=%s" % (W_, rate_, tail, tm.show(flags)),
+                                  "windows of %d samples, tail %d: end of stream requested %d times, %d of %d samples pulled" % (
+                                      W_, tail, src.nones, src.samples, len(data) // 2),
+                                  {"kind": "lazy", "tuple": [1, 2, 0, 0], "flags": tm.show(flags)})
     W = 2
     for (mn, mx, ms, mode) in [(1, 1, 0, 0), (1, 3, 0, 0), (2, 3, 1, 0), (1, 3, 2, 0), (2, 4, 1, 4), (1, 2, 1, 2), (3, 3, 0, 6),
                                (2, 5, 3, 4), (1, 4, 3, 0), (2, 2, 1, 0), (1, 5, 0, 4), (3, 5, 2, 2)]:
